@@ -72,6 +72,25 @@ def ref_sites(seq, rx):
     return EMPTY_REF(seq) if rx == '' else RULES[rx](seq)
 
 
+RULE_LEN = {'PE': 2, 'PP': 2, 'P[ST]': 2, 'E.K': 3}
+
+
+def ref_ranges(seq, rx):
+    """independent reading of get_regex_match_range (string pattern): (start, end) of every overlapped match"""
+    if rx == '':
+        return [(i, i) for i in range(len(seq) + 1)]
+    out = []
+    for i in RULES[rx](seq):
+        if rx == 'P+':
+            j = i
+            while j < len(seq) and seq[j] == 'P':
+                j += 1
+            out.append((i, j))
+        else:
+            out.append((i, i + RULE_LEN.get(rx, 1)))
+    return out
+
+
 def impl_sites(seq, rx):
     from peptacular.util import get_regex_match_indices
     return list(get_regex_match_indices(seq, rx, offset=-1))
@@ -582,6 +601,22 @@ def o_sites(c):
     return None if got == exp else f'get_regex_match_indices({s!r}, {rx!r}, offset=-1) = {got}, independent reading {exp}'
 
 
+def o_ranges(c):
+    from peptacular.util import get_regex_match_range, get_regex_match_indices
+    s_, rx = c
+    got = list(get_regex_match_range(s_, rx))
+    exp = ref_ranges(s_, rx)
+    if got != exp:
+        return f'get_regex_match_range({s_!r}, {rx!r}) = {got}, independent reading {exp}'
+    got3 = list(get_regex_match_range(s_, rx, offset=3))
+    if got3 != [(a_ + 3, b_ + 3) for a_, b_ in exp]:
+        return f'get_regex_match_range({s_!r}, {rx!r}, offset=3) = {got3}'
+    idx = list(get_regex_match_indices(s_, rx, offset=-1))
+    if idx != [(a_ if a_ != b_ else a_ - 1) for a_, b_ in exp]:
+        return f'get_regex_match_indices({s_!r}, {rx!r}, offset=-1) = {idx} is not start(+1)-1 of the ranges {exp}'
+    return None
+
+
 def roundtrips(a):
     import peptacular as pt
     try:
@@ -947,6 +982,9 @@ def run(chk):
                    for _ in range(1000 if quick else 20000)]
     chk.oracle('regex_sites_vs_independent_reading', site_cases, o_sites, nontrivial_fn=lambda c: len(c[0]) >= 2)
 
+    chk.oracle('regex_ranges_vs_independent_reading', site_cases[::(2 if quick else 1)], o_ranges,
+               nontrivial_fn=lambda c: len(c[0]) >= 2)
+
     osel = static_cases if (big or not quick) else static_cases[::2]
     chk.oracle('static_table_and_idempotence', osel, o_static,
                nontrivial_fn=lambda c: True, key_fn=lambda c: json.dumps(jcase(c), sort_keys=True))
@@ -1020,7 +1058,8 @@ def run(chk):
     return chk.finish(classify)
 
 
-_ORACLES = {'static_table_and_idempotence': o_static, 'variable_vs_subset_enumeration': o_var}
+_ORACLES = {'static_table_and_idempotence': o_static, 'variable_vs_subset_enumeration': o_var,
+            'regex_sites_vs_independent_reading': o_sites, 'regex_ranges_vs_independent_reading': o_ranges}
 
 
 def _shrink_failures(chk):
@@ -1045,12 +1084,14 @@ def classify(f):
 def replay(chk, obj):
     c = obj.get('case')
     fn = _ORACLES.get(obj.get('oracle'))
-    if fn is None or not isinstance(c, dict):
+    if fn is None or not isinstance(c, (dict, list)):
         print(json.dumps(obj, indent=1))
         return 0
     r = fn(c)
     print('case:', json.dumps(jcase(c)))
-    if 'max_mods' in c:
+    if isinstance(c, list):
+        pass
+    elif 'max_mods' in c:
         print('apply_variable_mods ->', call_var(c, 'str'))
     else:
         print('apply_static_mods ->', call_static(c, 'str'))
